@@ -28,9 +28,10 @@ const (
 	opWGWait
 	opWGAdd
 	opPlain // promoted racy plain access
+	opOnce  // sync.Once.Do
 )
 
-var opNamesK = [...]string{"send", "recv", "close", "select", "lock", "unlock", "rlock", "runlock", "wlock-announce", "wlock-acquire", "wunlock", "atomic", "vatomic", "quiescent", "wg-wait", "wg-add", "plain"}
+var opNamesK = [...]string{"send", "recv", "close", "select", "lock", "unlock", "rlock", "runlock", "wlock-announce", "wlock-acquire", "wunlock", "atomic", "vatomic", "quiescent", "wg-wait", "wg-add", "plain", "once"}
 
 type ObjKey struct {
 	Obj ObjID
@@ -295,6 +296,12 @@ func (e *Engine) transOf(st *State, g *G) []Trans {
 		base.Objs = []ObjKey{op.Obj}
 		base.Write = op.Write
 		return []Trans{base}
+	case opOnce:
+		base.Objs = []ObjKey{op.Obj}
+		if d := onceState(st, op.Ptr); d == 2 {
+			return nil // running in another goroutine: Do blocks until it completes
+		}
+		return []Trans{base}
 	case opVAtomic:
 		base.Objs = op.Objs
 		base.Write = op.Write
@@ -530,7 +537,8 @@ func (e *Engine) selectOp(w *Worker, st *State, g *G, fr *Frame, in *ssa.Select)
 
 // sync.Mutex{state int32; sema uint32}: state 0 unlocked, 1 locked.
 // sync.RWMutex{w Mutex; writerSem, readerSem uint32; readerCount, readerWait atomic.Int32}:
-//   w.state = writer holds; readerCount.v = active readers; readerWait.v = announced writers.
+//
+//	w.state = writer holds; readerCount.v = active readers; readerWait.v = announced writers.
 const (
 	rwFieldW           = 0
 	rwFieldReaderCount = 3
@@ -799,4 +807,49 @@ func intrAtomicCAS(c *icall) {
 		}
 		return nil, FalseT
 	})
+}
+
+// ---- sync.Once (built-in model) ----
+// Once{done atomic.Uint32{_ noCopy; v uint32}; m Mutex}: done.v = 0 not run, 1 done, 2 running.
+
+func oncePtr(st *State, p Ptr) Ptr {
+	d := st.load(p.Field(0)).(Tuple)
+	return p.Field(0).Field(len(d) - 1)
+}
+
+func onceState(st *State, p Ptr) uint64 { return st.load(oncePtr(st, p)).(*Term).K }
+
+func intrOnceDo(c *icall) {
+	p := c.args[0].(Ptr)
+	nilRecv(c, p)
+	c.e.visible(c.st, c.g, Op{Kind: opOnce, Obj: keyOf(p), Ptr: p, Write: true, Pos: c.curPos()})
+	if c.st.race != nil {
+		c.st.race.onAcquire(c.g, keyOf(p))
+	}
+	if onceState(c.st, p) == 1 {
+		c.ret(nil)
+		return
+	}
+	c.st.store(oncePtr(c.st, p), BV(32, 2))
+	f, _ := c.args[1].(*Closure)
+	if c.in == nil {
+		unsupported(c.curPos(), "deferred sync.Once.Do")
+	}
+	if f == nil {
+		c.e.goPanic(c.st, c.g, Str{S: "runtime error: invalid memory address or nil pointer dereference"}, "runtime error: invalid memory address or nil pointer dereference (nil func in Once.Do)", c.curPos())
+		panic(rtPanicSignal{})
+	}
+	// run f; when its frame is popped (return or panic) the once is marked done
+	nframes := len(c.g.Frames)
+	c.e.pushCall(c.w, c.st, c.g, f, nil, fkDiscard, c.curPos())
+	if len(c.g.Frames) > nframes {
+		c.g.Frames[len(c.g.Frames)-1].Once = &p
+	} else {
+		// f was an intrinsic/builtin executed inline
+		c.st.store(oncePtr(c.st, p), BV(32, 1))
+		if c.st.race != nil {
+			c.st.race.onRelease(c.g, keyOf(p))
+		}
+		c.fr.PC++
+	}
 }
